@@ -19,6 +19,7 @@ struct FaultOp {
   int k = 0;          // 0-based occurrence of (role, op) within the run
   std::string kind;   // ENOENT, EACCES, EMFILE, EINTR, EIO, ENOSPC, SHORT, ZERO, SIZE, ENOMEM, EAGAIN, FAIL
   long param = 0;     // bytes for SHORT, size delta for SIZE, ...
+  long repeat = 1;    // > 1: the condition persists for that many occurrences from the k-th on (a full non-blocking pipe, a full disk)
   int fired = 0;
   Json to_json() const;
   static FaultOp from_json(const Json& j);
